@@ -175,12 +175,19 @@ def main():
     if n_ok == 0:
         rep.undecided_ob("C05/vacuity", "no machine pair compared")
     lemma_delete_equals_empty_assign(rep)
+    # optimisation flags that act in the code generator (range collapsing) leave the machine untouched: for them the contract is on the
+    # emitted C, which is proved to execute the machine with the flag on and off (same obligations as C06, 'refine' family)
+    from . import _tvcommon as T
+    cg_sets = {"O0": ["-O0"], "O0-collapse": ["-O0", "-fcollapse-transition-ranges"], "O2": ["-O2"], "O2-collapse1": ["-O2", "--collapsed-range-length", "1"]}
+    cg_ps = progs.corpus(big=False, include_fail=False) + gen.regex_programs(False, common.seed())[:: 40] + gen.generated_programs(40 if thorough else 12, common.seed())
+    T.run("C05", {"refine"}, "other", "", optsets=cg_sets, programs=cg_ps, rep=rep)
+    rep.coverage["codegen_option_sets"] = cg_sets
     rep.coverage["variants"] = variants
     rep.coverage["programs_in_set"] = len(ps)
     rep.samples = [f"{o['prog']}: " + ", ".join(f"{' '.join(v)}={verdict}" for v, verdict, _, _ in o["results"][:3]) for o in outs[:6]]
     text = ("Bounded-exact: for each program the machine compiled at -O0 is compared with the machine compiled at each level / with each optimisation flag alone by an exact bisimulation in eager normal form "
             "(all 257 symbols; append overflow and conditions as symbolic branches; actions, consumption, acceptance, finish/yield codes compared; the only slack absorbed is an action sitting between two consumed bytes). "
-            "Pass-level contracts for simplify / remove-inaccessible on every call. collapse-transition-ranges only affects code generation and is covered by C06/C12 (emitted C proved against the DFA with the flag on).")
+            "Pass-level contracts for simplify / remove-inaccessible on every call. collapse-transition-ranges only affects code generation: for it the emitted C is proved (csem+z3, 'refine' obligations as in C06) to execute the same machine with the flag on and off, on the corpus, a regex sample and generated programs.")
     return rep.finish(text, checker_cmd="./check C05", require_obligations=False)
 
 
@@ -190,6 +197,18 @@ def replay(path):
     from ..rtc import bisim
     d = json.load(open(path))["input"]
     nmfu = common.load_nmfu()
+    if "obligation" in d:
+        from ..csem import tv as tvm
+        from . import _tvcommon as T
+        ps = {p["name"]: p for p in progs.corpus(big=False) + gen.regex_programs(False, common.seed()) + gen.generated_programs(40, common.seed())}
+        p = ps[d["program"]]
+        c = tvm.compile_program(nmfu, p["src"], d["flags"] + p["args"], path=p["name"])
+        Tt = tvm.TV(c)
+        Tt.run()
+        for r in Tt.results:
+            if r.oid == d["obligation"]:
+                print(r.family, r.oid, r.verdict, r.what, r.witness)
+        return 0
     src = d.get("source") or next(p["src"] for p in progs.corpus(include_fail=True) if p["name"] == d["program"])
     from ..progs import _args_of
     a = tv.compile_program(nmfu, src, ["-O0"] + _args_of(src))
